@@ -1123,6 +1123,22 @@ def gen_lines(rng, n):
         out.append({"kind": "lines", "left": w(lines), "right": w(new),
                     "cfg": {"normalize": rng.choice([WS_NONE, WS_NONE, WS_TEXT]), "replace": rng.random() < 0.3, "tt": [], "fmt": []},
                     "opts": {}, "late": rng.random() < 0.2})
+    # text tags: the long listing is the content of a text tag, with a formatting element that spans several lines on the
+    # left (opening in a line that is deleted, closing in a line that is replaced) and sits inside one line on the right
+    for _ in range(max(3, n // 2)):
+        lines = listing(rng.randint(12, 18))
+        i = rng.randrange(1, len(lines) - 6)
+        j = i + rng.randint(2, 4)
+        left = list(lines)
+        left[i] = "gone %d <b>%s\n" % (i, rng.choice(LWORDS))
+        left[j] = left[j].rstrip("\n") + "</b>\n"
+        new = [x for k, x in enumerate(lines) if k != i]
+        new[j - 1] = "<b>changed %d</b> %s\n" % (j, rng.choice(LWORDS))
+        for _ in range(rng.randint(0, 2)):
+            k = rng.randrange(j + 1, len(new))
+            new[k] = "changed %d %s\n" % (k, rng.choice(LWORDS))
+        out.append({"kind": "lines", "left": wrap_text(left), "right": wrap_text(new),
+                    "cfg": {"normalize": WS_NONE, "replace": False, "tt": ["pre"], "fmt": ["b"]}, "opts": {}, "late": False})
     return out
 
 
